@@ -257,7 +257,7 @@ def seq_elem(I, st, v, ip=None, label=False):
         return hyperedge_template(t)
     if t[0] == "lmap":
         return thaw(t[2])
-    if t[0] == "filtermap" and len(t[2]) == 1 and isinstance(t[2][0], tuple) and t[2][0] and t[2][0][0] == "tup":
+    if t[0] in ("filtermap", "mapwhile") and len(t[2]) == 1 and isinstance(t[2][0], tuple) and t[2][0] and t[2][0][0] == "tup":
         return thaw(t[2][0])        # the elements that were kept: the (tuple) payload of the Some answers
     if t[0] == "single":
         return thaw(t[1])
@@ -436,7 +436,7 @@ def _is_ph(a):
     return isinstance(a, tuple) and a and a[0] in ("elem", "enumidx", "el")
 
 
-BINDERS = {"flat", "lens", "flatlen", "lmap", "emap", "filtermap", "Fsizes", "Fmap", "sum"}
+BINDERS = {"flat", "lens", "flatlen", "lmap", "emap", "filtermap", "mapwhile", "Fsizes", "Fmap", "sum"}
 
 
 def _mentions_ph(x):
@@ -1100,6 +1100,20 @@ def h_filter_map(I, st, fr, e, c, a):
     return [(st, VSeq(filter_map_term(I, st, fr, e, seq, a[1])), None)]
 
 
+def h_map_while(I, st, fr, e, c, a):
+    """iter.map_while(f): the images of the longest PREFIX on which f answers Some (not a filter: it stops at the first
+    None).  The term records the list and the Some-valued element terms, like filter_map's, under another head."""
+    _no_effects(I, a[1], "h_map_while")
+    seq = as_list(I, st, fr, e, a[0])
+    if seq.t == EMPTY:
+        return [(st, VSeq(EMPTY), None)]
+    t = filter_map_term(I, st, fr, e, seq, a[1])
+    if t[0] == "filtermap":
+        t = ("mapwhile",) + t[1:]
+        st.add_ge(t_len(seq.t) - t_len(t))
+    return [(st, VSeq(t), None)]
+
+
 def _filter_map_as_loop(I, st, fr, e, seq, f):
     """filter_map(f) as the loop `for x in seq { if let Some(y) = f(x) { out.push(y) } }`, summarised by the
     conditional-push idiom (a selection by the path condition of the `Some` outcome).  None when f's answer is not an
@@ -1604,6 +1618,7 @@ TABLE = {
     "core::slice::<impl [T]>::sort_unstable": h_sort_nat,
     "std::slice::<impl [T]>::sort": h_sort_nat,
     "std::vec::Vec::<T, A>::dedup": h_dedup,
+    "std::iter::Iterator::map_while": h_map_while,
     "std::vec::Vec::<T, A>::split_off": h_split_off,
     "core::slice::<impl [T]>::windows": h_windows,
     "core::slice::<impl [T]>::sort_unstable_by_key": h_sort_unstable_by_key,
